@@ -1,8 +1,363 @@
 /-
-C07 — property theorems (under construction; see DESIGN.md section 8).
+C07 — SUBSCRIBE and UNSUBSCRIBE are always acknowledged and take effect at the
+acknowledgement.
+
+Property theorems only (helper lemmas: `Proofs/BrokerFanout*.lean`).  Model:
+`Model/Broker.lean` (`packet`, `subscribeLoop`, `sendRetained`) over the topic
+store `Model/Topics.lean`; specification: `Spec/Broker.lean` (`subCode`).  All
+theorems quantify over every state satisfying the representation invariant
+`Inv` (which `step` preserves from the initial state: `C07_inv_step`).
 -/
-import Mqtt.Model.Broker
-import Mqtt.Spec.Broker
+import Mqtt.Proofs.BrokerFanoutGen
+
+set_option linter.unusedSimpArgs false
 
 namespace Mqtt.Properties.C07
+open Mqtt.Iface.Broker Mqtt.Model.Broker Mqtt.Proofs.Broker
+open Mqtt.Model.Topics (MemTopics levels)
+open Mqtt.Proofs.Topics (good abs WF)
+open Mqtt.Spec.Match (split validFilter validName matchLevels)
+
+/-- the return code for one requested (filter, QoS byte), read off the topic
+store's own answer: the granted QoS `min(requested, server maximum)` if
+`MemTopics.subscribe` accepts the pair, 0x80 if it rejects it -/
+def grantCode (mt : MemTopics) (c : Nat) (tq : Bytes × Nat) : Nat :=
+  match (mt.subscribe Mqtt.Generated.maxQosAllowed tq.1 tq.2 c).2 with
+  | some _ => min tq.2 Mqtt.Generated.maxQosAllowed
+  | none => 0x80
+
+/-! ### the representation invariant -/
+
+/-- `Inv` (both tries well-formed - unique Go-map keys, one entry per subscriber
+and node -; every stored retained message has RETAIN set; every live
+connection's session reference resolves) holds of the initial state and is
+preserved by every event. -/
+theorem C07_inv_step : Inv {} ∧ ∀ (b : B) (e : Ev), Inv b → Inv (step b e).1 :=
+  ⟨Inv_init, Inv_step⟩
+
+/-- hence of every reachable state -/
+theorem C07_inv_run (es : List Ev) : Inv (run {} es).1 := Inv_run es {} Inv_init
+
+/-! ### (a) one SUBACK, first, same identifier, one code per filter in request order -/
+
+/-- A SUBSCRIBE on a live connection: the first output is the SUBACK to that
+connection with the request's identifier and exactly one return code per
+requested filter, in request order - `min(requested, maximum)` where the store
+accepts the filter, 0x80 where it rejects it (whatever state `mt` the store is
+in: acceptance depends on the request only).  Everything after the SUBACK is a
+PUBLISH to the same connection (retained delivery), so there is no second
+SUBACK and the request is never dropped. -/
+theorem C07_suback_shape (b : B) (hinv : Inv b) (c id : Nat) (topics : List (Bytes × Nat))
+    (hl : b.alive c = true) :
+    ∃ codes rest, (packet b c (.subscribe id topics)).2 = .send c (.suback id codes) :: rest ∧
+      codes.length = topics.length ∧
+      (∀ mt : MemTopics, codes = topics.map (grantCode mt c)) ∧
+      (∀ o ∈ rest, isPublishTo c o = true) ∧
+      (∀ o ∈ rest, ∀ d i cs, o ≠ .send d (.suback i cs)) := by
+  obtain ⟨cn, s, hc, ha, hs⟩ := hinv.live b c hl
+  rw [packet_subscribe b c cn s id topics hc ha hs]
+  have hcodes := subscribeLoop_codes c topics b s [] []
+  have hconns := (subscribeLoop_conns c topics b s [] []).1
+  generalize subscribeLoop b c s topics [] [] = r at *
+  obtain ⟨b1, s1, codes, rms⟩ := r
+  simp only [List.nil_append] at hcodes hconns ⊢
+  have hal : (b1.setSess s1).alive c = true := by
+    rw [alive_congr b (b1.setSess s1) (by simp [hconns]) c]; exact hl
+  have hshape := (sendRetained_shape c rms (b1.setSess s1)).2.2.2
+  refine ⟨codes, (sendRetained (b1.setSess s1) c rms).2, ?_, ?_, ?_, hshape, ?_⟩
+  · simp [send, hal]
+  · rw [hcodes]; simp
+  · intro mt
+    rw [hcodes]
+    apply List.map_congr_left
+    intro tq _
+    simp only [grantCode, modelCode, subscribe_snd]
+    cases accepts tq.1 tq.2 <;> simp
+  · intro o ho d i cs he
+    have := hshape o ho
+    rw [he] at this
+    simp [isPublishTo] at this
+
+/-- non-vacuity: a broker with one client ("a", connection 1) and a retained
+message on "a/b"; SUBSCRIBE id 7 for "a/+" (QoS 1), "a/#/x" (invalid), "a/b"
+with QoS byte 3 (invalid), "a/b" (QoS 0): SUBACK [1, 0x80, 0x80, 0] first, then
+the retained message once per granted filter. -/
+def exConnect (c : Nat) (cid : Bytes) : Ev :=
+  .first c (.connect { protoName := [77, 81, 84, 84], version := 4, clean := true, will := none, clientId := cid }) true
+
+def exState : B :=
+  (run {} [exConnect 1 [97], exConnect 2 [98],
+           .srvPub { qos := 1, retain := true, topic := [97, 47, 98], payload := [1, 2] }]).1
+
+/-- the example state satisfies the hypotheses of the theorems -/
+example : Inv exState := C07_inv_run _
+
+example :
+    exState.alive 1 = true ∧
+    (packet exState 1 (.subscribe 7 [([97, 47, 43], 1), ([97, 47, 35, 47, 120], 1), ([97, 47, 98], 3), ([97, 47, 98], 0)])).2 =
+      [.send 1 (.suback 7 [1, 0x80, 0x80, 0]),
+       .send 1 (.publish { qos := 1, retain := true, topic := [97, 47, 98], pktid := 1, payload := [1, 2] }),
+       .send 1 (.publish { qos := 0, retain := true, topic := [97, 47, 98], pktid := 0, payload := [1, 2] })] := by
+  decide
+
+/-- For filters without empty and without '$'-led levels (findings B3, B4 are
+outside), the codes are the specification's: `min(q, 2)` for a valid filter
+with QoS byte <= 2, else 0x80. -/
+theorem C07_codes_spec_partial (mt : MemTopics) (c : Nat) (topics : List (Bytes × Nat))
+    (hg : ∀ tq ∈ topics, good tq.1 = true) :
+    topics.map (grantCode mt c) = topics.map (fun tq => Mqtt.Spec.Broker.subCode tq.1 tq.2) := by
+  apply List.map_congr_left
+  intro tq htq
+  rw [← modelCode_good tq.1 tq.2 (hg tq htq)]
+  simp only [grantCode, modelCode, subscribe_snd]
+  cases accepts tq.1 tq.2 <;> simp
+
+/-- the full statement (all filters) -/
+def C07_codes_spec_full : Prop :=
+  ∀ (mt : MemTopics) (c : Nat) (topics : List (Bytes × Nat)),
+    topics.map (grantCode mt c) = topics.map (fun tq => Mqtt.Spec.Broker.subCode tq.1 tq.2)
+
+/-- false of the code as it is (finding B4): "a/$b" is a valid filter, the broker answers 0x80 -/
+theorem C07_codes_spec_full_counterexample : ¬ C07_codes_spec_full := by
+  intro h
+  have := h MemTopics.new 1 [([97, 47, 36, 98], 1)]
+  exact absurd this (by decide)
+
+/-- the regenerated server maximum is the protocol's -/
+theorem C07_facts_maxQos : Mqtt.Generated.maxQosAllowed = Mqtt.Spec.Broker.maxQos := facts_maxQos
+
+/-! ### (b) UNSUBSCRIBE -/
+
+/-- An UNSUBSCRIBE on a live connection is answered by exactly one packet: the
+UNSUBACK with the request's identifier. -/
+theorem C07_unsuback (b : B) (hinv : Inv b) (c id : Nat) (topics : List Bytes) (hl : b.alive c = true) :
+    (packet b c (.unsubscribe id topics)).2 = [.send c (.unsuback id)] := by
+  obtain ⟨cn, s, hc, ha, hs⟩ := hinv.live b c hl
+  rw [packet_unsubscribe b c cn s id topics hc ha hs]
+  simp [send, hl]
+
+example : exState.alive 2 = true ∧
+    (packet exState 2 (.unsubscribe 9 [[97, 47, 43], [120]])).2 = [.send 2 (.unsuback 9)] := by decide
+
+/-! ### (c) every listed filter takes effect -/
+
+/-- The SUBSCRIBE step on the subscription trie.  `entriesAfterSub c topics es`
+is the loop "for each requested (filter, QoS) in order: if the store accepts
+it, replace-or-add the entry (path of the filter, `c`, granted QoS)" over the
+entry list `es`.  The trie after the step holds exactly these entries; the
+entries of every other subscriber are the same as before; the invariant holds
+again.  (Paths are the level lists the code's own walk produces: no hypothesis
+on the filters.) -/
+theorem C07_subscribe_effect (b : B) (hinv : Inv b) (c id : Nat) (topics : List (Bytes × Nat))
+    (hl : b.alive c = true) :
+    Inv (packet b c (.subscribe id topics)).1 ∧
+    (abs (packet b c (.subscribe id topics)).1.topics.sroot).Perm (entriesAfterSub c topics (abs b.topics.sroot)) ∧
+    ((abs (packet b c (.subscribe id topics)).1.topics.sroot).filter (fun e => e.2.1 != c)).Perm
+      ((abs b.topics.sroot).filter (fun e => e.2.1 != c)) := by
+  have hp := packet_subscribe_sroot b hinv c id topics hl
+  refine ⟨Inv_packet b c _ hinv, hp, ?_⟩
+  have := hp.filter (fun e => e.2.1 != c)
+  rw [entriesAfterSub_others] at this
+  exact this
+
+/-- Every granted filter is subscribed when the SUBACK goes out: if the request
+at position `pre.length` is accepted, and no later accepted request of the same
+packet names the same filter (which would replace the QoS), the trie holds the
+entry (path of the filter, `c`, that request's return code). -/
+theorem C07_granted_is_held (b : B) (hinv : Inv b) (c id : Nat) (pre post : List (Bytes × Nat))
+    (t : Bytes) (q : Nat) (hl : b.alive c = true) (ha : accepts t q = true)
+    (hpost : ∀ tq ∈ post, accepts tq.1 tq.2 = true → (levels tq.1).1 ≠ (levels t).1) :
+    ((levels t).1, c, grantCode b.topics c (t, q)) ∈
+      abs (packet b c (.subscribe id (pre ++ (t, q) :: post))).1.topics.sroot := by
+  have hp := packet_subscribe_sroot b hinv c id (pre ++ (t, q) :: post) hl
+  rw [hp.mem_iff]
+  have hcode : grantCode b.topics c (t, q) = min q Mqtt.Generated.maxQosAllowed := by
+    simp [grantCode, subscribe_snd, ha]
+  rw [hcode]
+  exact entriesAfterSub_mem c pre post t q _ ha hpost
+
+/-- The UNSUBSCRIBE step on the subscription trie: exactly the entries of
+`c` under the paths of the listed filters disappear (`entriesAfterUnsub`); in
+particular no listed filter is subscribed for `c` afterwards, and the entries
+of every other subscriber are the same as before. -/
+theorem C07_unsubscribe_effect (b : B) (hinv : Inv b) (c id : Nat) (topics : List Bytes)
+    (hl : b.alive c = true) :
+    Inv (packet b c (.unsubscribe id topics)).1 ∧
+    (abs (packet b c (.unsubscribe id topics)).1.topics.sroot).Perm
+      (entriesAfterUnsub c topics (abs b.topics.sroot)) ∧
+    (∀ t ∈ topics, (levels t).2 = true → ∀ q,
+      ((levels t).1, c, q) ∉ abs (packet b c (.unsubscribe id topics)).1.topics.sroot) ∧
+    ((abs (packet b c (.unsubscribe id topics)).1.topics.sroot).filter (fun e => e.2.1 != c)).Perm
+      ((abs b.topics.sroot).filter (fun e => e.2.1 != c)) := by
+  have hp := packet_unsubscribe_sroot b hinv c id topics hl
+  refine ⟨Inv_packet b c _ hinv, hp, ?_, ?_⟩
+  · intro t ht hlv q hmem
+    exact entriesAfterUnsub_absent c topics t ht hlv _ q (hp.mem_iff.mp hmem)
+  · have := hp.filter (fun e => e.2.1 != c)
+    rw [entriesAfterUnsub_others] at this
+    exact this
+
+/-- "A subscription applies to every message the broker accepts after sending
+the SUBACK": in the state right after the SUBSCRIBE step, every decoded PUBLISH
+(QoS <= 2, identifier unless QoS 0) on a good valid topic name that the granted
+filter's path matches is forwarded to the connection - same topic, same
+payload, QoS min(publish QoS, return code of that filter), RETAIN 0. -/
+theorem C07_effective_after_suback_partial (b : B) (hinv : Inv b) (c id : Nat) (pre post : List (Bytes × Nat))
+    (t : Bytes) (q : Nat) (hc : c < cbBase) (hl : b.alive c = true) (ha : accepts t q = true)
+    (hpost : ∀ tq ∈ post, accepts tq.1 tq.2 = true → (levels tq.1).1 ≠ (levels t).1)
+    (p : Pub) (hg : good p.topic = true) (hn : validName p.topic = true) (hq : p.qos ≤ 2)
+    (hid : p.pktid ≠ 0 ∨ p.qos = 0) (hm : matchLevels (levels t).1 (split p.topic) = true) :
+    delivery p c (grantCode b.topics c (t, q)) ∈
+      (onPublish (packet b c (.subscribe id (pre ++ (t, q) :: post))).1 ⟨p, false⟩).2.2.1 := by
+  have hmem := C07_granted_is_held b hinv c id pre post t q hl ha hpost
+  have hinv' := Inv_packet b c (.subscribe id (pre ++ (t, q) :: post)) hinv
+  have hal' : (packet b c (.subscribe id (pre ++ (t, q) :: post))).1.alive c = true := by
+    rw [alive_congr b _ (packet_subscribe_conns b hinv c id _ hl)]; exact hl
+  obtain ⟨_, hperm⟩ := onPublish_char_gen _ p hinv' hg hn hq hid
+  have hin : dropCallRetain (delivery p c (grantCode b.topics c (t, q))) ∈
+      ((onPublish (packet b c (.subscribe id (pre ++ (t, q) :: post))).1 ⟨p, false⟩).2.2.1.map dropCallRetain) := by
+    rw [hperm.mem_iff]
+    refine List.mem_map.mpr ⟨_, List.mem_filter.mpr ⟨hmem, ?_⟩, rfl⟩
+    simp [hm, reachable, hal']
+  obtain ⟨o, ho, heq⟩ := List.mem_map.mp hin
+  have hsend : ∃ pk, delivery p c (grantCode b.topics c (t, q)) = .send c pk := by
+    simp [delivery, hc]
+  obtain ⟨pk, hpk⟩ := hsend
+  rw [hpk] at heq ⊢
+  simp only [dropCallRetain] at heq
+  rw [← dropCallRetain_send o _ _ heq]
+  exact ho
+
+/-- "... and to none it accepts after sending the UNSUBACK": in the state right
+after the UNSUBSCRIBE step, whatever a PUBLISH makes the broker hand to `c`
+stems from a subscription of `c` under a path other than those of the listed
+filters (`dropCallRetain`: the RETAIN flag an in-process callback sees apart). -/
+theorem C07_none_after_unsuback_partial (b : B) (hinv : Inv b) (c id : Nat) (topics : List Bytes)
+    (hl : b.alive c = true)
+    (p : Pub) (hg : good p.topic = true) (hn : validName p.topic = true) (hq : p.qos ≤ 2)
+    (hid : p.pktid ≠ 0 ∨ p.qos = 0) :
+    ∀ o ∈ (onPublish (packet b c (.unsubscribe id topics)).1 ⟨p, false⟩).2.2.1, target o = some c →
+      ∃ e ∈ abs (packet b c (.unsubscribe id topics)).1.topics.sroot,
+        e.2.1 = c ∧ matchLevels e.1 (split p.topic) = true ∧
+        (∀ t ∈ topics, (levels t).2 = true → e.1 ≠ (levels t).1) ∧
+        dropCallRetain o = dropCallRetain (delivery p c e.2.2) := by
+  intro o ho htc
+  obtain ⟨hinv', _, habs, _⟩ := C07_unsubscribe_effect b hinv c id topics hl
+  obtain ⟨_, hperm⟩ := onPublish_char_gen _ p hinv' hg hn hq hid
+  have hin : dropCallRetain o ∈
+      ((onPublish (packet b c (.unsubscribe id topics)).1 ⟨p, false⟩).2.2.1.map dropCallRetain) :=
+    List.mem_map.mpr ⟨o, ho, rfl⟩
+  rw [hperm.mem_iff] at hin
+  obtain ⟨e, he, heq⟩ := List.mem_map.mp hin
+  obtain ⟨he1, he2⟩ := List.mem_filter.mp he
+  simp only [Bool.and_eq_true] at he2
+  have hce : e.2.1 = c := by
+    have h1 : target (dropCallRetain (fwd p (e.2.1, min p.qos e.2.2))) = some e.2.1 := by
+      rw [target_dropCallRetain, ← delivery_eq, target_delivery]
+    rw [heq, target_dropCallRetain, htc] at h1
+    exact (Option.some.inj h1).symm
+  refine ⟨e, he1, hce, he2.1, ?_, ?_⟩
+  · intro t ht hlv hpath
+    apply habs t ht hlv e.2.2
+    have : ((levels t).1, c, e.2.2) = e := by rw [← hpath, ← hce]
+    rw [this]
+    exact he1
+  · rw [← heq, hce]; rfl
+
+/-- non-vacuity: connection 2 subscribes "a/+" (QoS 1): a QoS 1 PUBLISH on "a/b"
+reaches it; after UNSUBSCRIBE of "a/+" the same PUBLISH reaches nobody -/
+example :
+    let p : Pub := { qos := 1, topic := [97, 47, 98], pktid := 3, payload := [9] }
+    let b1 := (packet exState 2 (.subscribe 1 [([97, 47, 43], 1)])).1
+    let b2 := (packet b1 2 (.unsubscribe 2 [[97, 47, 43]])).1
+    (onPublish exState ⟨p, false⟩).2.2.1 = [] ∧
+    (onPublish b1 ⟨p, false⟩).2.2.1 = [.send 2 (.publish { qos := 1, topic := [97, 47, 98], pktid := 3, payload := [9] })] ∧
+    (onPublish b2 ⟨p, false⟩).2.2.1 = [] := by decide
+
+/-- Against the reference broker, for requests whose filters have no empty and
+no '$'-led level: if the trie holds exactly the specification's held
+subscriptions (`HeldInv`: entry (split filter, owner, QoS) per held
+subscription), it does so again after a SUBSCRIBE or UNSUBSCRIBE step of both
+(`Spec.Broker.step1`, any specification state with these held subscriptions
+that knows the connection). -/
+theorem C07_held_refines_partial (b : B) (hinv : Inv b) (c id : Nat) (hl : b.alive c = true)
+    (s : Mqtt.Spec.Broker.S) (hs : (Mqtt.Spec.Broker.getConn s c).isSome = true)
+    (hh : HeldInv b.topics.sroot s.held) :
+    (∀ topics : List (Bytes × Nat), (∀ tq ∈ topics, good tq.1 = true) →
+      HeldInv (packet b c (.subscribe id topics)).1.topics.sroot
+        (Mqtt.Spec.Broker.step1 s (.packet c (.subscribe id topics))).1.held) ∧
+    (∀ topics : List Bytes, (∀ t ∈ topics, good t = true) →
+      HeldInv (packet b c (.unsubscribe id topics)).1.topics.sroot
+        (Mqtt.Spec.Broker.step1 s (.packet c (.unsubscribe id topics))).1.held) := by
+  cases hcn : Mqtt.Spec.Broker.getConn s c with
+  | none => rw [hcn] at hs; exact absurd hs (by simp)
+  | some cn =>
+    constructor
+    · intro topics hg
+      have hp := packet_subscribe_sroot b hinv c id topics hl
+      obtain ⟨e1, e2⟩ := entriesAfterSub_held c topics hg s.held hh.valid
+      simp only [Mqtt.Spec.Broker.step1, hcn, specSubHeld_eq]
+      exact ⟨(hp.trans (entriesAfterSub_perm c topics _ _ hh.perm)).trans (by rw [e1]), e2⟩
+    · intro topics hg
+      have hp := packet_unsubscribe_sroot b hinv c id topics hl
+      have e1 := entriesAfterUnsub_held c topics hg s.held hh.valid
+      simp only [Mqtt.Spec.Broker.step1, hcn]
+      exact ⟨(hp.trans (entriesAfterUnsub_perm c topics _ _ hh.perm)).trans (by rw [e1]),
+        fun h hm => hh.valid h (List.mem_filter.mp hm).1⟩
+
+/-- The same for the in-process API (`Server.Subscribe` / `Server.Unsubscribe`
+of a callback), and a publish of any kind leaves the subscription trie as it
+is - so `HeldInv` is maintained along every history of these events. -/
+theorem C07_held_refines_srv_partial (b : B) (hinv : Inv b) (cb : Nat) (f : Bytes) (hg : good f = true)
+    (s : Mqtt.Spec.Broker.S) (hh : HeldInv b.topics.sroot s.held) :
+    (∀ q, HeldInv (step b (.srvSub cb f q)).1.topics.sroot (Mqtt.Spec.Broker.step1 s (.srvSub cb f q)).1.held) ∧
+    HeldInv (step b (.srvUnsub cb f)).1.topics.sroot (Mqtt.Spec.Broker.step1 s (.srvUnsub cb f)).1.held ∧
+    (∀ m : Msg, (onPublish b m).1.topics.sroot = b.topics.sroot) := by
+  refine ⟨?_, ?_, ?_⟩
+  · intro q
+    have := srvSub_held b hinv cb f q hg s.held hh
+    simp only [step, Mqtt.Spec.Broker.step1]
+    split
+    · rename_i hc; simp only [hc, ↓reduceIte] at this; exact this
+    · rename_i hc; simp only [hc, ↓reduceIte] at this; exact this
+  · exact srvUnsub_held b hinv cb f hg s.held hh
+  · intro m
+    rw [onPublish_topics]
+    exact (retainStep_frame b m).1
+
+/-- the full statement of the SUBSCRIBE half: all filters -/
+def C07_held_refines_full : Prop :=
+  ∀ (b : B) (c id : Nat) (s : Mqtt.Spec.Broker.S) (topics : List (Bytes × Nat)),
+    Inv b → b.alive c = true → (Mqtt.Spec.Broker.getConn s c).isSome = true → HeldInv b.topics.sroot s.held →
+    HeldInv (packet b c (.subscribe id topics)).1.topics.sroot
+      (Mqtt.Spec.Broker.step1 s (.packet c (.subscribe id topics))).1.held
+
+/-- False of the code as it is (finding B3): the filter "/a" (first level
+empty) is stored under the path of "+/a". -/
+theorem C07_held_refines_full_counterexample : ¬ C07_held_refines_full := by
+  intro h
+  have h0 : HeldInv exState.topics.sroot [] := by
+    have : abs exState.topics.sroot = [] := by decide
+    exact ⟨by rw [this]; exact List.Perm.refl _, by simp⟩
+  have := (h exState 1 1 { conns := [⟨1, [97], true, none, []⟩] } [([47, 97], 1)] (C07_inv_run _) (by decide)
+    (by decide) h0).perm
+  have e1 : abs (packet exState 1 (.subscribe 1 [([47, 97], 1)])).1.topics.sroot = [([[43], [97]], 1, 1)] := by
+    decide
+  have e2 : (Mqtt.Spec.Broker.step1 { conns := [⟨1, [97], true, none, []⟩] }
+      (.packet 1 (.subscribe 1 [([47, 97], 1)]))).1.held = [⟨1, [47, 97], 1⟩] := by decide
+  rw [e1, e2] at this
+  exact absurd (List.perm_singleton.mp this) (by decide)
+
+/-- non-vacuity: connection 1 subscribes "a/+" (1), "a/b" (2), "a/+" again (0):
+the later grant replaces the earlier; then unsubscribes "a/b"; the in-process
+subscriber's entry is untouched throughout. -/
+example :
+    let b0 := (step exState (.srvSub 1000 [97, 47, 35] 1)).1
+    let b1 := (packet b0 1 (.subscribe 1 [([97, 47, 43], 1), ([97, 47, 98], 2), ([97, 47, 43], 0)])).1
+    let b2 := (packet b1 1 (.unsubscribe 2 [[97, 47, 98], [120]])).1
+    b0.alive 1 = true ∧ b1.alive 1 = true ∧
+    abs b1.topics.sroot = [([[97], [35]], 1000, 1), ([[97], [43]], 1, 0), ([[97], [98]], 1, 2)] ∧
+    abs b2.topics.sroot = [([[97], [35]], 1000, 1), ([[97], [43]], 1, 0)] := by
+  decide
+
 end Mqtt.Properties.C07
